@@ -230,7 +230,7 @@ theorem half_geN {G : Sem} (hG : G.WF) {a : Flt} {c c2 : ℚ} (hc0 : 0 < c2) (hc
     rw [hc]
     simp only [Spec.scaleExact, hca, ha.sign, ha.sem]
     congr 1
-  · have he : a.scale (-1) .nte = a := by simp [Flt.scale, Flt.isNormal, hca]
+  · have he : a.scale (-1) .nte = a := by simp [Flt.scale, Flt.scaleCore, Flt.isNormal, hca]
     refine ⟨?_, fun _ => he⟩
     rw [he]; exact ⟨ha.sem, ha.can, ha.sign, Or.inr hca⟩
 
